@@ -315,7 +315,7 @@ func (r *c25Run) tornSweep(t c25Torn, where string) {
 	last := segmentFile(r.dir, t.Last)
 	full, err := os.ReadFile(last)
 	if err != nil {
-		r.fail("infra", "", where+": "+err.Error())
+		r.fail("drift", "", where+": the newest file of the model does not exist: "+err.Error())
 		return
 	}
 	// chunk boundaries of the newest file from the references handed out by WriteChunk
@@ -454,9 +454,20 @@ func (r *c25Run) replay(b c25Beh) {
 			for _, id := range st.Lost {
 				r.lost[id] = true
 			}
+			gone := map[int]bool{}
+			for _, f := range removed {
+				gone[f] = true
+			}
 			for id, c := range r.chunks {
-				if seq, _ := c.ref.Unpack(); c.written && seq < st.N {
+				seq, _ := c.ref.Unpack()
+				if c.written && seq < st.N {
 					r.mayGo[id] = true
+					// a chunk whose file the code has really removed (legitimately: it is older than n) is not read any
+					// more, whatever the model keeps: its reference may by now point into a new file with the same number
+					if gone[seq] && !r.lost[id] {
+						r.lost[id] = true
+						r.fail("drift", "", fmt.Sprintf("%s: file %d of chunk %d removed, the model keeps it", where, seq, id))
+					}
 				}
 			}
 		case "WPop":
@@ -549,7 +560,14 @@ func (r *c25Run) replay(b c25Beh) {
 	}
 }
 
+var c25Ran bool
+
 func TestVerifC25Replay(t *testing.T) {
+	// the package's TestMain runs every test twice (write queue off / on for its own tests); once is enough here
+	if c25Ran {
+		t.Skip("already replayed in this process")
+	}
+	c25Ran = true
 	behs, err := verifh.ReadNDJSON[c25Beh](verifh.In())
 	if err != nil {
 		verifh.Infra(err.Error())
